@@ -11,6 +11,9 @@ NOTE = ("Trusted: Coq 8.16.1 kernel + vm_compute (no native_compute; coqchk in t
         "implementation. Modelled-not-verified: CPython primitives, re, json, hashlib, sockets, threads, time (DESIGN.md sections 3-4).")
 
 CHECKS = {
+    'C10': dict(technique='Coq: unbounded round-trip theorems (induction, lia/nia) over a hand-written model of the codecs and packet reader; model tied to the code by vm_compute case files; RFC-based Python oracle',
+                text='Theorems for all values: byte/bool/u32/string/name-list round trips, SSH-2 mpint of either sign through the 32-bit word loop (the lemma the pre-fix code violated), minimal encoding, RFC 4253 framing for every payload length and read-back by the modelled reader. Correspondence: ~10k codec/framing/reader cases per quick run incl. truncation, mutation and segmentation. Not yet proved: SSH-1 mpint round trip, KEXINIT/PKM message round trips, CRC table = bit-serial division (covered by correspondence + zlib oracle only).',
+                ref='DESIGN.md section 5 C10'),
     'C17': dict(technique='Coq: kernel-evaluated (vm_compute) theorems over translator-generated tables, lifted to forall-statements by flat_map lemmas; independent Python oracle over the imported tables',
                 text='Proof over the complete, regenerated tables: cross-references, no failed algorithm in built-in policies, broken-primitive rule, entry shape. The property quantifies over the tables as they stand (finite), so kernel evaluation is the stated quantifier; a table edit regenerates Tables.v and the named theorem fails with the offending entries.',
                 ref='DESIGN.md section 5 C17'),
